@@ -103,6 +103,8 @@ def write_coqproject():
 def coq_prepare():
     """Regenerate Consts.v and the Makefile (under the coq lock)."""
     rc, out, err, _ = sh([sys.executable, os.path.join(ROOT, "tools", "extract_consts.py")])
+    rc2, out2, err2, _ = sh([sys.executable, os.path.join(ROOT, "tools", "extract_consts2.py")])
+    err = (err.strip() + " " + err2.strip()).strip()
     changed = write_coqproject()
     mk = os.path.join(COQ, "Makefile")
     proj = os.path.join(COQ, "_CoqProject")
@@ -474,7 +476,7 @@ def main():
              "axioms used (standard-library declared, allow-listed): " + ", ".join(sorted(used_axioms))) if not bad_axioms
             else "axioms outside the allow-list: " + json.dumps(bad_axioms),
             "Coq Extraction with ExtrOcamlBasic only (no Extract Constant / Extract Inductive of our own); OCaml 4.13.1; ocaml/prelude.ml + ocaml/%s.ml" % DRV,
-            "tools/extract_consts.py (regenerates Generated/Consts.v from /repo on every run)",
+            "tools/extract_consts.py and extract_consts2.py (regenerate Generated/Consts.v, Consts2.v from /repo on every run)",
             "hand-written models tied to the code by the differential correspondence check reported below",
             "hooks in /repo under --cfg divan_verif (thin wrappers, virtual clock, event log) and harness/%s" % CRATE,
         ] + list(getattr(prop, "TRUSTED", [])),
